@@ -186,6 +186,40 @@ theorem mapM_ok_length {ι κ : Type} (f : ι → Except PyErr κ) (l : List ι)
         subst h
         simp [ih ys hxs]
 
+/-- the closed form of `len(range(a, b, s))` for a positive step: `max(0, (b - a + s - 1) // s)` -/
+theorem rangeLenClosed_pos (a b s : Int) (hs : 0 < s) :
+    max (0 : Int) (pyFloorDiv (((b - a) + s) - 1) s) = pyRangeLen a b s := by
+  unfold pyRangeLen pyFloorDiv
+  rw [if_pos hs, Int.fdiv_eq_ediv_of_nonneg _ (Int.le_of_lt hs)]
+  have e : ((b - a) + s) - 1 = (b - a - 1) + 1 * s := by ring
+  rw [e, Int.add_mul_ediv_right _ _ (Int.ne_of_gt hs)]
+  split_ifs with h
+  · have : 0 ≤ (b - a - 1) / s := Int.ediv_nonneg (by omega) (by omega)
+    omega
+  · have : (b - a - 1) / s < 0 := Int.ediv_neg_of_neg_of_pos (by omega) hs
+    omega
+
+theorem rangeLenClosed (a b s : Int) (hs : s ≠ 0) :
+    (if (s > (0 : Int)) then (max (0 : Int) (pyFloorDiv (((b - a) + s) - (1 : Int)) s))
+      else (max (0 : Int) (pyFloorDiv (((a - b) - s) - (1 : Int)) (- s)))) = pyRangeLen a b s := by
+  by_cases h : s > 0
+  · rw [if_pos h]; exact rangeLenClosed_pos a b s h
+  · rw [if_neg h]
+    have hneg : s < 0 := by omega
+    have e : ((a - b) - s) - 1 = ((a - b) + (-s)) - 1 := by ring
+    rw [e, rangeLenClosed_pos b a (-s) (by omega)]
+    unfold pyRangeLen
+    rw [if_pos (by omega : (0:Int) < -s), if_neg (by omega : ¬ (0:Int) < s), if_pos hneg]
+/-- tie (a) for the slice branch: whichever of the recognised spellings the source uses for the number of
+    elements of `range(*carrier_indexes.indices(fft_size))` — `len(range(..))` itself or the closed form
+    `max(0, (stop - start + step - 1) // step)` / `max(0, (start - stop - step - 1) // -step)` — the emitted
+    expression is `pyRangeLen` (the step of `slice.indices` is never 0) -/
+theorem blockSizeSlice_eq (fft a b c : Int) (hc : c ≠ 0) :
+    Generated.blockSizeSlice fft a b c = pyRangeLen a b c := by
+  first
+    | rfl
+    | (unfold Generated.blockSizeSlice; exact rangeLenClosed a b c hc)
+
 /-- numpy slicing never raises: the selected positions are the `range` of `slice.indices` -/
 theorem selPos_slice {sl : PySlice} {N : Nat} {a b c : Int} (h : sliceIndices sl N = .ok (a, b, c)) :
     selPos (.slice sl) N = .ok ((pyRange a b c).map Int.toNat) := by
@@ -221,7 +255,8 @@ theorem blockSize_eq_selected (sel : Sel) (fft : Nat) (B : Int) (ps : List Nat)
       rw [selPos_slice hs] at hps
       simp only [Except.ok.injEq] at hps
       subst hps
-      simp only [List.length_map, pyRange_length, Generated.blockSizeSlice]
+      simp only [List.length_map, pyRange_length]
+      rw [blockSizeSlice_eq _ a b c (sliceIndices_bounds hs).1]
       exact Int.toNat_of_nonneg (pyRangeLen_nonneg a b c)
 
 theorem blockSize_ok_of_selPos (sel : Sel) (fft : Nat) (ps : List Nat) (hps : selPos sel fft = .ok ps) :
